@@ -184,6 +184,7 @@ def account(prop, tier, want_tags, expl, level, extra_note=''):
                            'obligation': f['property'], 'description': f['description'], 'location': f.get('location'),
                            'emitted_file': os.path.join(wd, base + '.c')}
                 reproduced, text = False, ''
+                replay_budget = len(part.violations) < 8   # common.finish prints at most 8 violation lines; native searches are expensive
                 if key == 'T' and f['description'].startswith('C04.compile'):
                     q = subprocess.run(['cc', '-fsyntax-only', '-pedantic-errors', '-w', os.path.join(wd, base + '.c')], capture_output=True, text=True, errors='replace')
                     reproduced = q.returncode != 0
@@ -198,6 +199,8 @@ def account(prop, tier, want_tags, expl, level, extra_note=''):
                     payload.update(row=row, col=col)
                     reproduced = True  # closed obligation over constants: the emitted row IS the failing input
                     text = 'emitted table row %s (second index %s) of %s differs from the set the Recommendation defines; re-emit with: uscxml-transform -tc -i %s' % (row, col, d['name'], d['path'])
+                elif not replay_budget:
+                    text = 'native replay skipped: this run already has 8 violations with a replay'
                 elif key == 'R':
                     exe, err = build_replay(d, mbase if os.path.exists(os.path.join(wd, mbase + '.facts.h')) else base, wd)
                     if exe:
